@@ -43,6 +43,11 @@ impl TscTimestamp {
     /// Reads the timestamp counter.
     #[inline(always)]
     pub fn start() -> Self {
+        #[cfg(feature = "verif_hooks")]
+        if let Some(value) = crate::__verif::vclock::read(true) {
+            return Self { value };
+        }
+
         #[allow(unused)]
         let value = 0;
 
@@ -58,6 +63,11 @@ impl TscTimestamp {
     /// Reads the timestamp counter.
     #[inline(always)]
     pub fn end() -> Self {
+        #[cfg(feature = "verif_hooks")]
+        if let Some(value) = crate::__verif::vclock::read(false) {
+            return Self { value };
+        }
+
         #[allow(unused)]
         let value = 0;
 
